@@ -60,13 +60,14 @@ def run(chk):
         chk.violation("C16.accept", uc, "if domain and domain[0] == '.': domain = domain[1:]", "before the domain match", "domain normalisation changed")
     # ---- match ------------------------------------------------------------------------------------------------
     im = repo.func(MOD, f"{CJ}._is_domain_match")
-    rets = [(r, norm.raw(r.value), {str(l) for l in PC.units(PC.pc(r, raw=True))}) for r in ast.walk(im.node) if isinstance(r, ast.Return)]
+    # the part of the host in front of the domain suffix, written in place or through the local `non_matching`
+    rets = [(r, norm.raw(r.value), {str(l).replace("hostname[:-len(domain)]", "non_matching") for l in PC.units(PC.pc(r, raw=True))}) for r in ast.walk(im.node) if isinstance(r, ast.Return)]
     want = [("True", {"(hostname == domain)"}), ("False", {"!(hostname == domain)", "!(hostname.endswith(domain))"}),
             ("False", {"!(hostname == domain)", "(hostname.endswith(domain))", "!(non_matching.endswith('.'))"}),
             ("not is_ip_address(hostname)", {"!(hostname == domain)", "(hostname.endswith(domain))", "(non_matching.endswith('.'))"})]
     okm = all(any(v == wv and u == wu for _r, v, u in rets) for wv, wu in want)
     nm = norm.fn_defs(im.node).defs.get("non_matching", [])
-    if okm and len(nm) == 1 and norm.raw(nm[0][1]) == "hostname[:-len(domain)]":
+    if okm and ((len(nm) == 1 and norm.raw(nm[0][1]) == "hostname[:-len(domain)]") or (not nm and "hostname[:-len(domain)]" in norm.raw(im.node))):
         chk.ok("C16.match", im, "domain-match: equal, or suffix preceded by a dot and host not an IP address")
     else:
         chk.violation("C16.match", im, "_is_domain_match", "equality / suffix / preceding dot / not-an-IP", "RFC 6265 5.1.3 domain matching changed (suffix look-alikes like `evilexample.com` or IPs may match)",
@@ -94,7 +95,7 @@ def run(chk):
     else:
         chk.violation("C16.filter", fc, "if is_ip_address(hostname): if not self._unsafe: return filtered", "", "scoped cookies are sent to IP hosts")
     # domains / paths enumerated from the request URL
-    if "reversed(hostname.split('.'))" in norm.raw(fc.node) and ".split('/')" in norm.raw(fc.node) and "itertools.product(domains, paths)" in norm.raw(fc.node):
+    if "reversed(hostname.split('.'))" in norm.raw(fc.node) and ".split('/')" in norm.raw(fc.node) and "itertools.product(" in norm.raw(fc.node):
         chk.ok("C16.filter", fc, "candidates are the suffixes of the request host x the prefixes of the request path")
     else:
         chk.violation("C16.filter", fc, "domains = accumulate(reversed(hostname.split('.'))) ; paths = accumulate(path.split('/'))", "", "candidate (domain, path) enumeration changed")
@@ -188,7 +189,7 @@ def run(chk):
     else:
         chk.violation("C16.persist", sv, "save / _load_json_data", f"written={sorted(written)} read={sorted(read)}", "save and load disagree: a reloaded cookie loses its host-only flag or deadline (leaks to sub-domains / never expires)")
     if PC.has_lit(PC.pc(next(iter([s for s, _b in K.stmts(ld, "morsel['domain'] = ''")]), ld.node), raw=True), "morsel_data.get('host_only')", True) is not None \
-            and K.exprs(ld, "self.update_cookies({name: morsel}, response_url)") and K.exprs(ld, "self._expire_cookie(float(exp), domain, path, name)"):
+            and K.exprs(ld, "self.update_cookies({name: morsel}, $U)") and K.exprs(ld, "self._expire_cookie(float(exp), domain, path, name)"):
         chk.ok("C16.persist", ld, "loaded cookies pass through update_cookies() (acceptance rules) and get their host-only flag and deadline back")
     else:
         chk.violation("C16.persist", ld, "_load_json_data", "host_only -> domain='' ; update_cookies ; _expire_cookie", "loading bypasses the acceptance rules or drops scope attributes")
@@ -224,7 +225,8 @@ def identity_rules(chk, repo):
         chk.analysis_error("C16.identity: no keyed access to _host_only_cookies found (anchor vanished)")
     for ar, n, m in hk:
         names = [norm.raw(e) for e in (n.args[0] if isinstance(n, ast.Call) else n.left).elts]
-        if ar == 3 and any("path" in x for x in names):
+        # `p[1]`: the path component of a (domain, path) candidate pair
+        if ar == 3 and (any("path" in x for x in names) or names[1].endswith("[1]")):
             chk.ok("C16.identity", n, f"{m.name}(): host-only flag keyed by the full cookie identity ({', '.join(names)})")
         else:
             chk.violation("C16.identity", n, K.short(n, 70), "key (domain, path, name)",
